@@ -4,6 +4,7 @@ mod hasher;
 mod rng;
 mod s1_filters;
 mod s3_reservoir;
+mod s4_digest;
 
 use framework::*;
 
@@ -45,6 +46,16 @@ fn plan(ctx: &mut CheckCtx, k: f64) {
         "C14" => {
             ctx.run::<s1_filters::S1>(n(150_000));
         }
+        "C04" => {
+            ctx.run::<s4_digest::S4>(n(6_000));
+        }
+        "C15" => {
+            ctx.required_probes = vec!["fused_centroid_at_tail", "n_lt_delta"];
+            ctx.run::<s4_digest::S4>(n(8_000));
+        }
+        "C16" => {
+            ctx.run::<s4_digest::S4>(n(12_000));
+        }
         "C05" => {
             // one evaluation = one (k, n) cell = a batch of sampler runs; the grid is fixed per tier
             let cells = s3_reservoir::small_grid().len() + if ctx.tier == Tier::Thorough { s3_reservoir::large_grid().len() } else { 0 };
@@ -77,6 +88,7 @@ fn replay(path: &str) -> i32 {
     let scen = doc["scenario"].as_str().unwrap_or("");
     let viols = match scen {
         "S1-filter-node" => replay_case::<s1_filters::S1>(&doc, prop),
+        "S4-digest" => replay_case::<s4_digest::S4>(&doc, prop),
         "S3a-reservoir-invariants" => replay_case::<s3_reservoir::S3a>(&doc, prop),
         "S3b-reservoir-uniformity" => replay_case::<s3_reservoir::S3b>(&doc, prop),
         _ => {
@@ -98,7 +110,7 @@ fn replay(path: &str) -> i32 {
 }
 
 /// Claimed properties (everything `plan` knows).
-const CLAIMED: &[&str] = &["C01", "C05", "C12", "C13", "C14", "C18"];
+const CLAIMED: &[&str] = &["C01", "C04", "C05", "C12", "C13", "C14", "C15", "C16", "C18"];
 
 /// Proves determinism on a sample: every claimed check is run in separate processes with the same
 /// seed at 1, 5 and 16 workers (and the 16-worker one twice); the event-log hashes (per-run
